@@ -225,6 +225,17 @@ Additions for models/sparse_combo.py (the Gibbs blocks of LegacySparseDrugComboI
                       denotes a computation of such an answer in the configuration's monad).  The configuration TRUSTS that no
                       other statement of the try body raises.  Any other try statement, and continue / break / return / raise
                       inside either part, are refused.
+Additions for scoring/gaussian_dbal.py (generate_combination_at_sorted_index, the unranking generator; C15):
+  `while T:`          a general loop test (still only with cfg["while_fuel"], default monad, no while/else, no `return` inside):
+                      `while T: B` is `while True: if not T: break; B` - PyRt.res_while whose body first evaluates T on the
+                      CURRENT state (a test that may raise is bound inside the body, i.e. re-evaluated every iteration); T false
+                      answers (false, state), otherwise B runs and the end of B / `continue` answers (true, state), `break`
+                      (false, state).  The final failing test consumes one unit of fuel: a loop of m iterations needs fuel m + 1.
+  cfg["checked_div"]  tag: integer `a // b` and `a % b` (also `//=`, `%=`) are CHECKED: PyRt.checked_div / checked_mod, bound
+                      where Python evaluates them (after both operands), Err tag = ZeroDivisionError when b = 0, else Coq's
+                      Z.div / Z.modulo (floor division / modulo with the sign of the divisor = Python's).  Without the key
+                      `//` and `%` stay the total Z.div / Z.modulo (which return 0 for b = 0): a configuration whose divisor
+                      can be 0 on a reachable input must set it.  Default monad only.
 """
 import ast
 
@@ -553,6 +564,14 @@ class Tr:
             ops = {ast.Add: "+", ast.Sub: "-", ast.Mult: "*", ast.FloorDiv: "/", ast.Mod: "mod"}
             if type(e.op) not in ops:
                 raise Unsupported("operator: " + ast.unparse(e))
+            if isinstance(e.op, (ast.FloorDiv, ast.Mod)) and self.cfg.get("checked_div") is not None:
+                # cfg["checked_div"]: ZeroDivisionError (Err tag) when the divisor is 0, evaluated after both operands
+                if self.M["type"] != "result":
+                    raise Unsupported("checked division under a non-default monad: " + ast.unparse(e))
+                n = self.new("r")
+                hoist.append((n, "%s (%d) %s %s" % ("checked_div" if isinstance(e.op, ast.FloorDiv) else "checked_mod",
+                                                    self.cfg["checked_div"], l, r)))
+                return n, ("Z",)
             return "(%s %s %s)" % (l, ops[type(e.op)], r), ("Z",)
         if isinstance(e, ast.UnaryOp) and isinstance(e.op, ast.USub):
             v, t = self.expr(e.operand, env, hoist)
@@ -1638,10 +1657,14 @@ class Tr:
         return self.bind_hoist(hoist, txt, ind) + self.block(rest, env_after, k, ind)
 
     def while_loop(self, st, rest, env, k, ind):
-        """`while True:` left only by `break` (or an exception): PyRt.res_while on the explicit fuel cfg["while_fuel"]"""
+        """`while True:` left only by `break` (or an exception): PyRt.res_while on the explicit fuel cfg["while_fuel"];
+        `while T:` is `while True: if not T: break; ...` (the test is evaluated on the current state at every iteration)"""
         fuel = self.cfg.get("while_fuel")
-        if not (isinstance(st.test, ast.Constant) and st.test.value is True) or st.orelse:
-            raise Unsupported("while loop other than `while True:` without else")
+        plain = isinstance(st.test, ast.Constant) and st.test.value is True
+        if st.orelse:
+            raise Unsupported("while loop with an else clause")
+        if not plain and isinstance(st.test, ast.Constant):
+            raise Unsupported("while loop over a constant other than True: " + ast.unparse(st.test))
         if fuel is None or env.get(fuel) != ("nat",) or self.M["type"] != "result":
             raise Unsupported("while loop without a declared fuel parameter of type nat")
         if self.has_jump(st.body, (ast.Return,)):
@@ -1658,7 +1681,14 @@ class Tr:
                 return "%s    Ok (false, %s)\n" % (ind, tuple_term(carried))
             raise Unsupported("jump out of a loop body")
 
-        body = self.block(st.body, dict(env), kbody, ind + "    ")
+        if plain:
+            body = self.block(st.body, dict(env), kbody, ind + "    ")
+        else:     # a general test: evaluated first, on the state the iteration starts with; false leaves the loop
+            thoist = []
+            c = self.cond(st.test, dict(env), thoist)
+            inner = self.block(st.body, dict(env), kbody, ind + "      ")
+            body = self.bind_hoist(thoist, "%s    if %s then\n%s%s    else\n%s      Ok (false, %s)\n" % (
+                ind, c, inner, ind, ind, tuple_term(carried)), ind + "    ")
         spat = tuple_pat(carried) if carried else "(_ : unit)"
         if len(carried) == 1:
             spat = "(%s : %s)" % (carried[0], coq_type(env[carried[0]]))
